@@ -131,6 +131,15 @@ func effectiveReplayProtectionWindow(replayProtectionWindow int) int {
 		return defaultReplayProtectionWindow
 	}
 
+	// The replay detector keeps its bitmap in 64-bit words and loses accepted
+	// sequence numbers when the window is not a whole number of words, so a
+	// replayed record could be delivered twice. Round up: a larger window
+	// still rejects every duplicate and only tolerates more reordering.
+	const wordBits = 64
+	if rem := replayProtectionWindow % wordBits; rem != 0 {
+		replayProtectionWindow += wordBits - rem
+	}
+
 	return replayProtectionWindow
 }
 
